@@ -112,6 +112,17 @@ func c12exec(line string) (string, []string, string, string) {
 		} else if len(body) != 0 {
 			viol = append(viol, "HEAD response carries a body")
 		}
+		if isTile := !strings.HasSuffix(path, ".json") && !strings.HasSuffix(path, "/metadata"); isTile {
+			// the property's mapping, written down independently of the code: tile type -> Content-Type, tile compression -> Content-Encoding
+			wantCT := map[uint8]string{1: "application/x-protobuf", 2: "image/png", 3: "image/jpeg", 4: "image/webp", 5: "image/avif"}
+			wantCE := map[uint8]string{1: "", 2: "gzip", 3: "br", 4: "zstd"}
+			if w, ok := wantCT[h.TileType]; ok && ct != w {
+				viol = append(viol, fmt.Sprintf("tile response has Content-Type %q, the archive's tile type %d means %q", ct, h.TileType, w))
+			}
+			if w, ok := wantCE[h.TileComp]; ok && ce != w {
+				viol = append(viol, fmt.Sprintf("tile response has Content-Encoding %q, the archive's tile compression %d means %q (internal compression gzip=%v)", ce, h.TileComp, w, gzipped))
+			}
+		}
 		if (h.TileType == 0 || h.TileType > 5) && !strings.HasSuffix(path, ".json") && !strings.HasSuffix(path, "/metadata") {
 			ct = "?" // unknown tile type: net/http sniffs a content type from the bytes
 		}
